@@ -56,7 +56,7 @@ func runC04(c *Check) {
 	c.Doc("C04-R1", "EO: in the production step, every Store.UpdateState is freshly preceded by a post-signature Store.SaveBlockData, and every Store.SetHeight by a Store.UpdateState (block < state < height).")
 	c.Doc("C04-R2", "EO+VP: in NewManager every success return is preceded by Store.SetHeight(s.LastBlockHeight) with s the result of the initial-state loader.")
 	c.Doc("C04-R3", "GA: Sequencer.GetNextBatch and the block builder are reachable only on the failing edge of Store.GetBlockData(Store.Height()+1); on the success edge the loaded header/data are the ones committed.")
-	c.Doc("C04-R4", "EO: Executor.ExecuteTxs is preceded on every path by a Store.SaveBlockData of this step or by the successful load of the stored block.")
+	c.Doc("C04-R4", "EO: Executor.ExecuteTxs is preceded on every path by the nil-error edge of a Store.SaveBlockData of this step or by the successful load of the stored block.")
 	c.Doc("C04-R5", "EO/GA: the cache writer creates its file under a temporary name and renames it onto the final path on every success path, or the loader does not fail on a decode error.")
 	steps := productionStep(c, p)
 	if len(steps) == 0 {
@@ -151,10 +151,13 @@ func runC04(c *Check) {
 		if len(g.Select(isExec)) == 0 {
 			c.Unk("C04-R4", fnShort(step)+" ⟂ ExecuteTxs", fn, "", "anchor lost: no Executor.ExecuteTxs in reach of the production step")
 		} else {
+			// "saved" is the nil edge of the save: a failed early save that is only logged leaves
+			// nothing for a restart to take over, while the executor and the sequencer move on
+			saveOK := g.Select(ErrNilEdge(func(t *Term) bool { return t.IsCall("pkg/store.Store).SaveBlockData") }))
 			c.Decide("C04-R4", fnShort(step)+" ⟂ save<ExecuteTxs", fn, posOf(g, isExec),
 				"what the execution layer sees has been saved (or was loaded from the store) before",
 				"Executor.ExecuteTxs is reachable before the block is durable: after a crash a different block can be executed at the same height",
-				g, g.FreshPrecede(orPred(isSave, nodeSet(loadOK)), isExec))
+				g, g.FreshPrecede(orPred(nodeSet(saveOK), nodeSet(loadOK)), isExec))
 		}
 		undecidedGraph(c, "C04-R1", g, nil)
 	}
